@@ -163,6 +163,12 @@ Case gen() {
     c.p["path"] = {gpPath(12, 24, 200000, closed)};
     ST.count("large_operands");
   }
+  if (G::chance(1)) {
+    // a path of 130-300 vertices (a ring, so that it is in general position) with a small pattern
+    c.p["pattern"] = {gpPath(3, 5, 3000, true)};
+    c.p["path"] = {GEN::ring((int)G::range(130, 300), G::sym(1000), G::sym(1000), 0.97e5, 1e5, G::coin())};
+    ST.count("very_long_path");
+  }
   c.i["closed"] = closed;
   c.i["dp"] = G::chance(70) ? -1 : G::range(0, 4);
   if (G::chance(4)) c.p[G::coin() ? "pattern" : "path"] = {Path64()};   // empty operand: empty result
